@@ -197,7 +197,7 @@ theorem WInv.rmC {w : World} (hw : WInv w) (hsock : ∀ (j : Nat) (f : Flow), w.
           have hu := h0.up
           simp only [upSrc, hc] at hu
           have hdead := ((hsock j f0 hf).1 p hc).2 hok'
-          have h1 := hu.srcStep (SrcStep.remove _ rfl (Or.inl hdead.2.2.2.2.1))
+          have h1 := hu.srcStep (SrcStep.remove _ rfl (Or.inl hdead.2.2.2.2.1) (Or.inl ⟨hdead.2.2.2.1, hdead.1⟩))
           have h2 := h1.srcStep (SrcStep.flags _ true true true (fun _ => rfl) (fun _ => rfl) (fun _ => rfl)
             (fun _ => Or.inl hdead.2.2.2.1))
           simpa [upSrc, upSink, goneSrc, SV] using h2
@@ -256,8 +256,8 @@ theorem WInv.rmS {w : World} (hw : WInv w) (hsock : ∀ (j : Nat) (f : Flow), w.
           simpa [upSrc, upSink, goneSink, KV, hev] using h2
         · have hd := h0.down
           simp only [downSrc, hc] at hd
-          have hdead := ((hsock j f0 hf).2 p hc).2 hok'
-          have h1 := hd.srcStep (SrcStep.remove _ rfl (Or.inl hdead.2.2.2.2.1))
+          have hdead := ((hsock j f0 hf).2.1 p hc).2 hok'
+          have h1 := hd.srcStep (SrcStep.remove _ rfl (Or.inl hdead.2.2.2.2.1) (Or.inl ⟨hdead.2.2.2.1, hdead.1⟩))
           have h2 := h1.srcStep (SrcStep.flags _ true true true (fun _ => rfl) (fun _ => rfl) (fun _ => rfl)
             (fun _ => Or.inl hdead.2.2.2.1))
           simpa [downSrc, downSink, goneSrc, SV, hev] using h2
@@ -325,17 +325,54 @@ theorem downSink_ever (f : Flow) : (downSink f).ever = true := by
 
 theorem FlowOK.popC' {cm sm cm' : MuxL} {f : Flow} (h : FlowOK cm sm f) (fr : Frame)
     (he : cm.out = fr :: cm'.out) (hd : isData f.chan fr = false)
-    (hc : isConnect f.chan fr = true → f.sEver = true) : FlowOK cm' sm f := by
+    (hc : isConnect f.chan fr = true → f.sEver = true)
+    (hE : isEof f.chan fr = true → ((upSink f).ever = true ∧ (upSink f).mwShutR = true) ∨ (upSink f).sawShut = true) :
+    FlowOK cm' sm f := by
   refine ⟨?_, h.down, h.cchan, h.schan⟩
   rw [upSrc_setOut cm cm']
   exact h.up.pop fr cm'.out (by rw [upSrc_out]; exact he) hd
-    (fun hcc => upSink_ever (hc hcc) (fun p hp => (h.schan p hp).2.2))
+    (fun hcc => upSink_ever (hc hcc) (fun p hp => (h.schan p hp).2.2)) hE
 
 theorem FlowOK.popS' {cm sm sm' : MuxL} {f : Flow} (h : FlowOK cm sm f) (fr : Frame)
-    (he : sm.out = fr :: sm'.out) (hd : isData f.chan fr = false) : FlowOK cm sm' f := by
+    (he : sm.out = fr :: sm'.out) (hd : isData f.chan fr = false)
+    (hE : isEof f.chan fr = true → ((downSink f).ever = true ∧ (downSink f).mwShutR = true) ∨ (downSink f).sawShut = true) :
+    FlowOK cm sm' f := by
   refine ⟨h.up, ?_, h.cchan, h.schan⟩
   rw [downSrc_setOut sm sm']
-  exact h.down.pop fr sm'.out (by rw [downSrc_out]; exact he) hd (fun _ => downSink_ever f)
+  exact h.down.pop fr sm'.out (by rw [downSrc_out]; exact he) hd (fun _ => downSink_ever f) hE
+
+/-- An EOF of a flow that nobody takes at the server: the flow's wrapper there is unregistered (it has
+`shut_read`), or gone (then its socket was shut), and it cannot be that it never existed. -/
+theorem FlowOK.eofDropC {cm sm : MuxL} {g : Flow} (hg : FlowOK cm sm g) (fr : Frame) (rest : List Frame)
+    (ho : cm.out = fr :: rest) (hE : isEof g.chan fr = true)
+    (hun : ∀ q, g.s = some q → q.mw.shutR = true) :
+    ((upSink g).ever = true ∧ (upSink g).mwShutR = true) ∨ (upSink g).sawShut = true := by
+  cases hs : g.s with
+  | some q => left; simp only [upSink, hs, KV]; exact ⟨trivial, hun q hs⟩
+  | none =>
+    cases hev : g.sEver with
+    | true => left; simp [upSink, hs, goneSink, hev]
+    | false =>
+      exfalso
+      have hc := (hg.up.conn (by simp [upSink, hs, goneSink, hev])).2
+      rw [upSrc_out, ho] at hc
+      have h1 : isStream g.chan fr = true := isEof_stream hE
+      have h2 : isConnect g.chan fr = false := by
+        simp only [isEof, Bool.and_eq_true, beq_iff_eq] at hE
+        simp only [isConnect, hE.2]
+        have := cmds_distinct.2.2.2.2.1
+        simp [this]
+      simp only [connectAhead, h1, h2] at hc
+      rcases hc with hc | ⟨hc, _⟩ <;> cases hc
+
+theorem FlowOK.eofDropS {g : Flow} (fr : Frame) (hun : ∀ q, g.c = some q → q.mw.shutR = true) :
+    ((downSink g).ever = true ∧ (downSink g).mwShutR = true) ∨ (downSink g).sawShut = true := by
+  cases hs : g.c with
+  | some q => left; simp only [downSink, hs, KV]; exact ⟨trivial, hun q hs⟩
+  | none => left; simp [downSink, hs, goneSink]
+
+theorem notEof_of_cmd {c : Nat} {fr : Frame} (h : fr.cmd ≠ EOF) : isEof c fr = false := by
+  simp [isEof, h]
 
 /-- Popping the head of the client → server queue when no flow's wrapper accepts it. -/
 theorem WInv.popAllC {w : World} (hw : WInv w) (fr : Frame) (rest : List Frame) (ho : w.cm.out = fr :: rest)
@@ -442,6 +479,7 @@ theorem FlowOK.acceptS {cm sm cm' : MuxL} {f : Flow} {p : ProxyS} (h : FlowOK cm
     have hnd : isData f.chan fr = false := notData_of_cmd (by rw [hc]; exact Ne.symm cmds_distinct.2.1)
     have hncn : isConnect f.chan fr = false := notConnect_of_cmd (by rw [hc]; exact cmds_distinct.2.2.2.2.2)
     have h1 := hup.pop fr cm'.out (by rw [upSrc_out]; exact he) hnd (fun hcc => by rw [hncn] at hcc; cases hcc)
+      (fun hh => by rw [notEof_of_cmd (by rw [hc]; exact Ne.symm cmds_distinct.2.2.2.1)] at hh; cases hh)
     refine ⟨?_, ?_, h.cchan, ?_⟩
     · show DirInv f.chan (upSrc cm' _) (upSink _)
       rw [eU]
@@ -511,6 +549,7 @@ theorem FlowOK.acceptC {cm sm sm' : MuxL} {f : Flow} {p : ProxyS} (h : FlowOK cm
     have hnd : isData f.chan fr = false := notData_of_cmd (by rw [hc]; exact Ne.symm cmds_distinct.2.1)
     have hncn : isConnect f.chan fr = false := notConnect_of_cmd (by rw [hc]; exact cmds_distinct.2.2.2.2.2)
     have h1 := hdn.pop fr sm'.out (by rw [downSrc_out]; exact he) hnd (fun hcc => by rw [hncn] at hcc; cases hcc)
+      (fun hh => by rw [notEof_of_cmd (by rw [hc]; exact Ne.symm cmds_distinct.2.2.2.1)] at hh; cases hh)
     refine ⟨?_, ?_, ?_, h.schan⟩
     · show DirInv f.chan (upSrc cm _) (upSink _)
       rw [eU]
@@ -580,6 +619,8 @@ theorem WInv.dispatchS {w : World} (hw : WInv w) (hn : (chans w).Nodup) (fr : Fr
           exact (not_registered this).1
       · exact hg.popC' fr ho (by simpa using hdat)
           (fun hcc => by rw [notConnect_of_cmd hnc] at hcc; cases hcc)
+          (fun hE => hg.eofDropC fr rest ho hE (fun q hq =>
+            (not_registered (h3 j g hj hc q (by simp [handlerAt, hq]))).1))
     · exact hg.popC fr ho (foreign_of_chan_ne (fun h => hc h.symm))
   · -- flow i takes it
     rw [h1]; simp only [Bool.false_eq_true, ↓reduceIte]; rw [hfl]
@@ -626,6 +667,8 @@ theorem WInv.dispatchC {w : World} (hw : WInv w) (hn : (chans w).Nodup) (fr : Fr
           have := h3 j g hj hc q (by simp [handlerAt, hs])
           exact (not_registered this).1
       · exact hg.popS' fr ho (by simpa using hdat)
+          (fun _ => FlowOK.eofDropS fr (fun q hq =>
+            (not_registered (h3 j g hj hc q (by simp [handlerAt, hq]))).1))
     · exact hg.popS fr ho (foreign_of_chan_ne (fun h => hc h.symm))
   · rw [h1]; simp only [Bool.false_eq_true, ↓reduceIte]; rw [hfl]
     have hs : f.c = some p := by simpa [handlerAt] using hh
@@ -710,6 +753,7 @@ theorem WInv.connectS {w : World} (hw : WInv w) (hn : (chans w).Nodup) (fr : Fra
       refine hw.popAllC fr rest ho ?_
       intro j g hj hg
       refine hg.popC' fr ho (hnd _) ?_
+        (fun hh => by rw [notEof_of_cmd (by rw [hc]; exact Ne.symm cmds_distinct.2.2.2.2.1)] at hh; cases hh)
       intro hcc
       have hm := hfi g (List.mem_of_getElem? hj)
       simp only [isConnect, Bool.and_eq_true, beq_iff_eq] at hcc
@@ -815,7 +859,8 @@ theorem WInv.deliverC {w : World} (hw : WInv w) (hn : (chans w).Nodup)
           have hcmd : fr.cmd = CONNECT := by simpa using h3
           have hpop : WInv { w with sm := { w.sm with out := rest } } :=
             hw.popAllS fr rest ho (fun j g _ hg => hg.popS' fr ho
-              (notData_of_cmd (by rw [hcmd]; exact Ne.symm cmds_distinct.2.2.1)))
+              (notData_of_cmd (by rw [hcmd]; exact Ne.symm cmds_distinct.2.2.1))
+              (fun hh => by rw [notEof_of_cmd (by rw [hcmd]; exact Ne.symm cmds_distinct.2.2.2.2.1)] at hh; cases hh))
           split at hd
           · simp at hd
           · next hocc => rw [if_neg hocc]; exact hpop
